@@ -297,6 +297,10 @@ class StoreModel(Model):
                 v.append((f'import-content/{self.flavour}/{k}',
                           f'[{self.flavour}] {ev}: graph {target} holds {_brief(post.get(target))}, expected '
                           f'{"the imported payload" if allowed == [want] else "the live graph kept (documented skip)"}'))
+        if k == 'import_bad' and outcome[0] != 'ok' and post.get(target) != pre.get(target):
+            # an import that fails has not replaced anything: the graph it was addressed to is what it was
+            v.append((f'failed-import-changed-target/{self.flavour}',
+                      f'[{self.flavour}] {ev} raised {outcome[1:]} but graph {target} went from {_brief(pre.get(target))} to {_brief(post.get(target))}'))
         if k == 'import_bad' and outcome[0] == 'ok' and (self.flavour == 'shared' or target not in pre):   # (per-graph store: documented skip)
             v.append((f'import-accepts-node-without-id/{self.flavour}', f'[{self.flavour}] {ev} returned normally'))
         # no two stored nodes share an internal identity: a successful add_node adds exactly one node to its graph
